@@ -42,6 +42,7 @@ structure Sender where
   parked    : List Flight := []        -- goroutines waiting in the inner `select`
   delivered : List Flight := []        -- events a stream loop has received; `done()` not yet called
   closed    : Conn → Bool := fun _ => false   -- the client's stream context is done
+  gone      : Conn → Bool := fun _ => false   -- the connection's stream loop has returned
   stopped   : Bool := false            -- `stopCh` is closed
   -- history
   deqs      : Conn → Nat := fun _ => 0   -- how often `Dequeue` handed out the connection
@@ -70,6 +71,10 @@ inductive SEv
   | dequeue              -- `queue.Dequeue()` returns (a connection, or shutting down)
   | deliver (c : Conn)   -- inner `case client.PushCh() <- pushEv` (the stream loop of `c` received it)
   | pushDone (c : Conn)  -- the stream loop finished `pushConnection` (ok or error) and calls `pushEv.done()`
+  | loopReturn (c : Conn)  -- the stream loop of `c` returns (`con.stop` closed by a forced disconnect, the request
+                           -- channel closed, a failed `Process`/`Push`): never between taking a push event and its
+                           -- `done()` (`Push` calls `done()` before the loop looks at anything else); the handler
+                           -- returning ends the stream's context
   | closedExit (c : Conn)  -- inner `case <-closed: doneFunc()`
   | stopExit (c : Conn)    -- inner `case <-stopCh: doneFunc()`
   -- the environment
@@ -102,9 +107,14 @@ def stepS (s : Sender) : SEv → Option Sender
           some { s with q := dequeueState s.q, parked := s.parked ++ [(c, r)], loop := .top, deqs := bump s.deqs c }
     else none
   | .deliver c =>
-    match takeFlight c s.parked with
-    | some (f, rest) => some { s with parked := rest, delivered := s.delivered ++ [f] }
-    | none => none
+    if s.gone c then none   -- a loop that has returned receives nothing
+    else match takeFlight c s.parked with
+      | some (f, rest) => some { s with parked := rest, delivered := s.delivered ++ [f] }
+      | none => none
+  | .loopReturn c =>
+    if s.delivered.any (fun f => f.1 == c) then none
+    else some { s with gone := fun c' => if c' = c then true else s.gone c'
+                       closed := fun c' => if c' = c then true else s.closed c' }
   | .pushDone c =>
     match takeFlight c s.delivered with
     | some (_, rest) => some (doneFunc { s with delivered := rest } c)
